@@ -89,6 +89,16 @@ def history_sessions(ctx, n):
             s.cmd(t, "CMD " + FC.rand_cmd(rng, len(sim.trx)))
             if rng.random() < 0.1:
                 s.tick()
+        # power measurement on every carrier some transceiver is tuned to, whatever the others do
+        # (hopping, idle, muted) and wherever they sit in the transceiver list
+        if rng.random() < 0.5:
+            for u in range(len(sim.trx)):
+                if rng.random() < 0.5:
+                    s.cmd(u, rng.choice(["CMD POWERON", "CMD POWERON", "CMD POWEROFF"]))
+            for u in range(len(sim.trx)):
+                f = getattr(sim.trx[u], "_tx_freq", None)
+                if isinstance(f, int) and 0 < f < 2 * 10 ** 9:
+                    s.cmd(rng.randrange(len(sim.trx)), "CMD MEASURE %d" % (f // 1000))
         # long SETFH: up to 64 channel pairs
         if rng.random() < 0.3:
             npairs = rng.choice([8, 9, 16, 32, 64])
@@ -97,6 +107,39 @@ def history_sessions(ctx, n):
                 ma += [935000 + 200 * i, 890000 + 200 * i]
             t = rng.randrange(len(sim.trx))
             s.cmd(t, "CMD SETFH %d %d %s" % (rng.randrange(64), rng.randrange(64), " ".join(str(x) for x in ma)))
+        out.append(s.trace())
+    return out
+
+
+def measure_sessions(ctx, n):
+    """MEASURE with every arrangement of running / idle, tuned / hopping transceivers around the
+    measured carrier: each transceiver of the wiring is, in list order, idle, tuned and running, or
+    hopping and running; every carrier in use is then measured from every transceiver."""
+    rng = ctx.rng
+    out = []
+    for k in range(n):
+        FC.seed_random(rng)
+        sim = FC.mk_sim(rng, argv=rng.choice(FC.CONFIGS[1:]))
+        s = FC.Session("p%d" % k, sim)
+        nt = len(sim.trx)
+        carriers = []
+        for t in range(nt):
+            role = rng.choice(["idle", "tuned", "tuned", "hop", "hop"])
+            rx, tx = rng.sample(FC.FREQS, 2)
+            if role in ("idle", "tuned"):
+                s.cmd(t, "CMD RXTUNE %d" % rx)
+                s.cmd(t, "CMD TXTUNE %d" % tx)
+                carriers.append(tx)
+            else:
+                npair = rng.randint(1, 3)
+                ma = [rng.choice(FC.FREQS) for _ in range(2 * npair)]
+                s.cmd(t, "CMD SETFH %d %d %s" % (rng.randrange(64), rng.randrange(8), " ".join(map(str, ma))))
+                carriers += ma[1::2]
+            if role != "idle":
+                s.cmd(t, "CMD POWERON")
+        for f in sorted(set(carriers)) + [rng.choice(FC.FREQS)]:
+            for t in rng.sample(range(nt), min(nt, 2)):
+                s.cmd(t, "CMD MEASURE %d" % f)
         out.append(s.trace())
     return out
 
@@ -268,6 +311,7 @@ def run(ctx):
         ctx.extra["documented_hazard_reproduced"] = (r.violation or {}).get("name")
     traces = grammar_sessions(ctx, ctx.pick(1, 12))
     traces += history_sessions(ctx, ctx.pick(80, 2500))
+    traces += measure_sessions(ctx, ctx.pick(30, 600))
     traces += sim_sessions(ctx, ctx.pick(40, 800))
     py, ctr = interop(ctx, ctx.pick(25, 500))
     traces += py
